@@ -228,7 +228,133 @@ def r8(ctx):
         raise AnalysisBroken('C06.R8: only %d strto* calls found in the field input parsers' % n)
 
 
+def boundary_rule(ctx, rid):
+    """exactness of the n-bit range tests of NumberDataType::parseInput, decided by evaluating each rejection condition
+    (a boolean expression over the parsed wide value, the bit count and constants - nothing else of the program) on the
+    boundary points of the n-bit range for n = 8, 16 and 32"""
+    ctx.rule(rid, 'the range tests of NumberDataType::parseInput reject exactly the values outside the n-bit range of the type: '
+             'signed types accept -2^(n-1) .. 2^(n-1)-1, unsigned types 0 .. 2^n-1, decided for each rejection condition '
+             'on the five boundary points around each limit (n = 8, 16, 32). A test that is too lax lets a value wrap into '
+             'the sign bit or the next field (C07), one that is too strict rejects a text that decoding produces (C06)',
+             minimum=4, star=True)
+    fb = ctx.fb
+    fn = fb.fn('ebusd::NumberDataType::parseInput')
+    ctx.touch(fn)
+    oor = None
+    for en, e in fb.enums.items():
+        for x in e['enumerators']:
+            if x['name'] == 'RESULT_ERR_OUT_OF_RANGE':
+                oor = x['v']
+    wide = {}
+    for nid, d, rhs, op, lhs in fn.assignments():
+        if d and rhs is not None and op == 'init' and any(fn.nodes[x].get('callee') in ('strtol', 'strtoul', 'strtod') for x in fn.walk(rhs)):
+            wide[d] = d.split(':')[-1]
+
+    def ev(x, env):
+        x = fn.strip(x, casts=True)
+        v = fn.nodes[x]
+        k = v['k']
+        if k == 'FloatingLiteral':
+            try:
+                return float(v.get('fv'))
+            except (TypeError, ValueError):
+                return None
+        if k == 'DeclRefExpr':
+            if v.get('decl') in env:
+                return env[v['decl']]
+            if v.get('name') in env:
+                return env[v['name']]
+        if k == 'MemberExpr' and v.get('name') == 'm_bitCount':
+            return env['m_bitCount']
+        if fn.val(x) is not None:
+            return fn.val(x)
+        if k == 'UnaryOperator' and v.get('op') in ('-', '!'):
+            a = ev(v['ch'][0], env)
+            return None if a is None else (-a if v['op'] == '-' else (not a))
+        if k == 'ConditionalOperator':
+            c = ev(v['cond'], env)
+            if c is None:
+                return None
+            return ev(v['then'] if c else v['else'], env)
+        if k in ('CallExpr', 'CXXMemberCallExpr'):
+            cal = (v.get('callee') or '').split('::')[-1]
+            args = [ev(a, env) for a in v.get('args', [])]
+            if cal in ('fabs', 'abs', 'labs', 'llabs', 'fabsf') and args and args[0] is not None:
+                return abs(args[0])
+            if cal in ('exp2', 'exp2f') and args and args[0] is not None:
+                return 2 ** args[0]
+            return None
+        if k == 'BinaryOperator':
+            op = v['op']
+            if op in ('&&', '||'):
+                a, b = ev(v['lhs'], env), ev(v['rhs'], env)
+                if op == '||':
+                    return True if (a is True or b is True) else (False if (a in (False, None) and b in (False, None)) else None)
+                return False if (a is False or b is False) else (True if (a is True and b is True) else None)
+            a, b = ev(v['lhs'], env), ev(v['rhs'], env)
+            if a is None or b is None:
+                return None
+            try:
+                return {'+': lambda: a + b, '-': lambda: a - b, '*': lambda: a * b, '<<': lambda: int(a) << int(b),
+                        '<': lambda: a < b, '<=': lambda: a <= b, '>': lambda: a > b, '>=': lambda: a >= b,
+                        '==': lambda: a == b, '!=': lambda: a != b}[op]()
+            except (KeyError, ValueError, TypeError):
+                return None
+        return None
+    n = 0
+    for r in fn.all('ReturnStmt'):
+        if fn.val(fn.nodes[r].get('val')) != oor:
+            continue
+        p = fn.parent(r)
+        while p is not None and fn.nodes[p]['k'] != 'IfStmt':
+            p = fn.parent(p)
+        if p is None:
+            continue
+        cond = fn.nodes[p]['cond']
+        used = [d for d in wide if any(fn.nodes[x].get('k') == 'DeclRefExpr' and fn.nodes[x].get('decl') == d for x in fn.walk(cond))]
+        if len(used) != 1:
+            continue
+        wd = used[0]
+        atoms = dict((a[0], a[1]) for a in fn.atoms(p))
+        # the SIG flag: the hasFlag() atom under which the strtol (signed) parse sits
+        sigkey = None
+        for nid, d, rhs, op, lhs in fn.assignments():
+            if rhs is not None and any(fn.nodes[x].get('callee') == 'strtol' for x in fn.walk(rhs)):
+                for k3, p3 in ((a[0], a[1]) for a in fn.atoms(nid)):
+                    if k3.startswith('this.hasFlag(#') and p3:
+                        sigkey = k3
+        sig = atoms.get(sigkey) if sigkey else None
+        if sig is None:
+            continue
+        n += 1
+        # declared locals of the condition (e.g. max = exp2(m_bitCount - 1)) are resolved through their initialiser
+        problems = []
+        for bits_ in (8, 16, 32):
+            if ('(this.m_bitCount == #32)', False) in atoms.items() and bits_ == 32:
+                continue
+            lo, hi = (-(2 ** (bits_ - 1)), 2 ** (bits_ - 1) - 1) if sig else (0, 2 ** bits_ - 1)
+            for val in (lo - 2, lo - 1, lo, lo + 1, hi - 1, hi, hi + 1, hi + 2):
+                env = {wd: val, 'm_bitCount': bits_}
+                for nid, d, rhs, op, lhs in fn.assignments():
+                    if op == 'init' and d and d not in wide and rhs is not None and \
+                            any(fn.nodes[x].get('k') == 'DeclRefExpr' and fn.nodes[x].get('decl') == d for x in fn.walk(cond)):
+                        env[d] = ev(rhs, dict(env))
+                rej = ev(cond, env)
+                want = val < lo or val > hi
+                if not sig and val < 0 and 'unsigned long' in ''.join((fn.nodes[x].get('t') or '') for x in fn.walk(cond) if fn.nodes[x].get('decl') == wd):
+                    continue    # an unsigned long cannot hold a negative value: the sign is tested on the text (C07.R6)
+                if rej is None:
+                    rej = False
+                if bool(rej) != want:
+                    problems.append('%d-bit %s value %d is %s' % (bits_, 'signed' if sig else 'unsigned', val, 'rejected' if rej else 'accepted'))
+        ctx.ob(rid, fn, p, not problems, '%s range test of %s' % ('signed' if sig else 'unsigned', wide[wd]),
+               '; '.join(problems[:4]) or 'rejects exactly the values outside the n-bit range (24 boundary points)')
+    if n < 4:
+        raise AnalysisBroken('%s: only %d range tests recognised in parseInput' % (rid, n))
+
+
 def run(ctx):
+    boundary_rule(ctx, 'C06.R9')
     r8(ctx)
     r1(ctx)
     r2(ctx)
